@@ -36,6 +36,37 @@ def digraph_files():
             yield {'cls': 'digraph-%d' % n, 'insts': insts}
 
 
+def mixed_files(n=3):
+    """thorough: every assignment of a kind (NODE with two references / HOLDER with a list of <= 2 references / complex SUB2+SUP with one) to
+    n instances and every choice of their references among the NODE instances (the declared target type), plus two four-node families"""
+    ids = list(range(1, n + 1))
+    for kinds in itertools.product('NHX', repeat=n):
+        if set(kinds) == {'N'}:
+            continue                                # digraph_files has these
+        tg = [None] + [i for i in ids if kinds[i - 1] == 'N']
+        per = []
+        for i in ids:
+            k = kinds[i - 1]
+            if k == 'N':
+                per.append(['#%d=NODE(%s,%s,%d);' % (i, ref(a), ref(b), i) for a in tg for b in tg])
+            elif k == 'H':
+                lists = [()] + [(a,) for a in tg[1:]] + [(a, b) for a in tg[1:] for b in tg[1:]]
+                per.append(["#%d=HOLDER((%s),$,'h');" % (i, ','.join(ref(x) for x in l)) for l in lists])
+            else:
+                per.append(['#%d=(SUB2(5)SUP(%s));' % (i, ref(a)) for a in tg])
+        for insts in itertools.product(*per):
+            yield {'cls': 'mixed-kinds-%d' % n, 'insts': list(insts)}
+    ids = [1, 2, 3, 4]
+    ch = [None] + ids
+    for e in itertools.product(ch, repeat=4):       # four nodes, one reference each: every functional graph
+        yield {'cls': 'digraph-4-outdeg1', 'insts': ['#%d=NODE(%s,$,%d);' % (i, ref(e[i - 1]), i) for i in ids]}
+    for e in itertools.product(ch, repeat=4):       # ... and a second reference to the cyclic successor
+        for m in itertools.product((0, 1), repeat=4):
+            if not any(m):
+                continue
+            yield {'cls': 'digraph-4-ring', 'insts': ['#%d=NODE(%s,%s,%d);' % (i, ref(e[i - 1]), ref(i % 4 + 1 if m[i - 1] else None), i) for i in ids]}
+
+
 def shaped_files():
     N = lambda i, a=None, b=None: '#%d=NODE(%s,%s,%d);' % (i, ref(a), ref(b), i)
     yield {'cls': 'aggregate-refs', 'insts': [N(1), N(2, 1), "#3=HOLDER((#1,#2,#1),$,'t');", "#4=HOLDER((),#2,'u');"]}
@@ -251,9 +282,9 @@ def main():
                 'comparing each loaded instance\'s STEPwrite text with the eagerly read one')
     chk.assumptions = ['p21ref decides which ids an instance mentions', 'a file the eager reader itself rejects is judged by C01, not here']
     cases = list(digraph_files()) + list(shaped_files())
-    if args.tier == 'quick':
-        # the 729 three-node digraphs: all of them; (cheap)
-        pass
+    if args.tier == 'thorough':
+        cases += list(mixed_files())
+        chk.rule += '; thorough: every kind assignment (NODE / HOLDER list / complex) to 3 instances with every reference choice, all functional graphs on 4 nodes and those plus ring edges'
     sanlib = build.schema_lib(SCHEMA, 'san')
     with mp.get_context('fork').Pool(common.NCPU, initializer=_init, initargs=(lib.dir, sanlib.dir)) as pool:
         res = pool.map(run_file, cases, 8)
